@@ -187,4 +187,42 @@ theorem verifyAt_flip {pre c0 off seg} (post : Nat → Nat) (noCk : Nat → Bool
     have : (refCk pre off post (flipBit (emitAt c0 off post seg) i) == a) = false := by simp [hne]
     simp [hv, this]
 
+/-- the same emitted segment verified against a pseudo-header whose sum differs by ± 2^k (a flipped address
+    bit): Correct is the reference under the pseudo-header actually used, and differs from the stored value -/
+theorem verifyAt_other_pseudo {pre pre' c0 c0' off seg} (post : Nat → Nat) (noCk : Nat → Bool) (hp : PostOk post)
+    (h : Ctx pre c0 off seg) (h' : Ctx pre' c0' off seg) (k : Nat) (hk : k < 16)
+    (hd : c0' = c0 + 2 ^ k ∨ c0' + 2 ^ k = c0) :
+    ∃ e, get16At? (emitAt c0 off post seg) off = some e ∧
+      verifyAt c0' off post noCk (emitAt c0 off post seg) =
+        .ok { valid := noCk e, correct := refCk pre' off post (emitAt c0 off post seg), actual := e } ∧
+      refCk pre' off post (emitAt c0 off post seg) ≠ e := by
+  have hlen := emitAt_length (c0 := c0) post h.off_in
+  have hctx' : Ctx pre' c0' off (emitAt c0 off post seg) :=
+    { h' with off_in := by rw [hlen]; exact h.off_in, len_le := by rw [hlen]; exact h.len_le }
+  have he := emitAt_field post hp h
+  have hne : refCk pre' off post (emitAt c0 off post seg) ≠ refCk pre off post seg := by
+    intro heq
+    have h1 := accepted_sum_mod post hp _ hctx' he heq
+    have h0 := emitted_sum_mod post hp h
+    have := flip_changes_residue (c0' + wordsum (emitAt c0 off post seg)) (c0 + wordsum (emitAt c0 off post seg)) k hk
+      (by rcases hd with e | e
+          · left; omega
+          · right; omega)
+    omega
+  refine ⟨_, he, ?_, hne⟩
+  have hc := verifyWith_correct post (noCk (refCk pre off post seg)) _ hctx' he
+  have hv := verifyWith_valid c0' post (noCk (refCk pre off post seg)) (refCk pre off post seg) (emitAt c0 off post seg)
+  have ha := verifyWith_actual c0' post (noCk (refCk pre off post seg)) (refCk pre off post seg) (emitAt c0 off post seg)
+  unfold verifyAt
+  rw [he]
+  simp only []
+  congr 1
+  generalize verifyWith c0' post (noCk (refCk pre off post seg)) (refCk pre off post seg) (emitAt c0 off post seg) = r at *
+  cases r with
+  | mk v c a =>
+    simp only at hc hv ha
+    subst hc ha
+    have : (refCk pre' off post (emitAt c0 off post seg) == refCk pre off post seg) = false := by simp [hne]
+    simp [hv, this]
+
 end Gp.CksumEmit
